@@ -314,9 +314,9 @@ impl RtpsWriterProxy {
                     })
                     .peekable();
 
-                let base = *missing_fragments_iter
-                    .peek()
-                    .expect("At least a fragment must be missing");
+                // All fragment numbers can be present while the sample is not reassembled
+                // (inconsistent fragments_in_submessage): ask for fragment 1 instead of panicking
+                let base = missing_fragments_iter.peek().copied().unwrap_or(1);
                 // A FragmentNumberSet holds at most 256 numbers starting at its base
                 let fragment_number_state = FragmentNumberSet::new(
                     base,
